@@ -61,6 +61,35 @@ func (m *permissionMap) delete(addr net.Addr) {
 	delete(m.permMap, ipnet.FingerprintAddr(addr))
 }
 
+// findOrCreate returns the entry of addr and makes an idle one when there is
+// none, in one step: two writers to a new peer get the same permission.
+func (m *permissionMap) findOrCreate(addr net.Addr) *permission {
+	m.mutex.Lock()
+	defer m.mutex.Unlock()
+
+	key := ipnet.FingerprintAddr(addr)
+	if p, ok := m.permMap[key]; ok {
+		return p
+	}
+	p := &permission{addr: cloneAddr(addr)}
+	m.permMap[key] = p
+
+	return p
+}
+
+// deleteIf removes the entry of addr when it still is p. A writer that gives
+// up on its own permission must not take away the one another writer has
+// been granted for the same peer meanwhile.
+func (m *permissionMap) deleteIf(addr net.Addr, p *permission) {
+	m.mutex.Lock()
+	defer m.mutex.Unlock()
+
+	key := ipnet.FingerprintAddr(addr)
+	if m.permMap[key] == p {
+		delete(m.permMap, key)
+	}
+}
+
 func (m *permissionMap) addrs() []net.Addr {
 	m.mutex.RLock()
 	defer m.mutex.RUnlock()
